@@ -171,6 +171,7 @@ func (p *ProjectRunner) runProcess(config *types.ProcessConfig) {
 
 func (p *ProjectRunner) waitIfNeeded(process *types.ProcessConfig) error {
 	for k := range process.DependsOn {
+		verif.Obs("deptry %s %s", process.ReplicaName, k)
 		if proc := p.getDoneOrRunningProcess(k); proc != nil {
 			verif.Obs("dep %s %s found", process.ReplicaName, k)
 			verif.Yield("dep:lookup")
